@@ -598,6 +598,9 @@ class ServerTls(Server):
             if cx.aborted:  # handshake completed unsuccessfully
                 del self.cxes[ca] # remove and let client startover
                 continue
+            if cx.tymeout > 0.0 and cx.tymth and cx.tymer.expired:  # only if wound
+                cx.close()  # handshake still pending after tymeout so give up
+                del self.cxes[ca]
 
 
 
